@@ -964,6 +964,9 @@ def run(chk, facts, tier, only=None):
         if only and only != rid:
             continue
         chk.run_rule(rid, desc, fn)
+    if only is None:
+        import c12
+        chk.include(c12, "C12.R3", "C11.R5", facts)     # record values: the grammar's positional numbering (also at the label 2^32-1) is what the printer's tuple shorthand assumes
 
 
 # ============================================================================ helpers of R3
